@@ -28,6 +28,10 @@ def run_one(m, run_tests, tier):
         if n != m.get("count", 1):
             return m["id"], {"error": f"pattern occurs {n} times"}
         s = s.replace(m["old"], m["new"])
+        for extra in m.get("also", []):        # further replacements in the same file (a mutant made of two edits)
+            if s.count(extra["old"]) != 1:
+                return m["id"], {"error": f"second pattern occurs {s.count(extra['old'])} times"}
+            s = s.replace(extra["old"], extra["new"])
         open(p, "w").write(s)
         res = {}
         if run_tests:
